@@ -62,7 +62,10 @@ def one_history(c, rnd, hid, max_steps, force_mode=None, force_kinds=()):
         bare = rnd.random() < 0.33
         cwd = sb.path("ar") if bare else sb.root
         os.makedirs(sb.path("ar"), exist_ok=True)
-        arch = U.Arch(sb, base=cwd)
+        # archive file names with dots and with `part`-like extensions: the rewriting commands write their result to
+        # remove_part(path) (seeded C11-5: a bare `.part` extension taken for a part marker sends it to another file)
+        stem = rnd.choice(["x", "x", "x", "x.part", "my.file", "x.partial", "x.part0x"])
+        arch = U.Arch(sb, base=cwd, stem=stem)
         log = tree.log
         if bare:
             log.append("cd ar     # every command below runs in <sandbox>/ar")
@@ -95,7 +98,7 @@ def one_history(c, rnd, hid, max_steps, force_mode=None, force_kinds=()):
                     arch.clear()
                     if rnd.random() < 0.5 and si and not force_mode:
                         mode = rnd.choice(["single", "split", "solid", "solidsplit"])
-                    args = ["create", os.path.relpath(sb.path("ar", "x.pna"), cwd), "--overwrite"] + flags
+                    args = ["create", os.path.relpath(sb.path("ar", stem + ".pna"), cwd), "--overwrite"] + flags
                     if "solid" in mode:
                         args.append("--solid")
                     if "split" in mode:
